@@ -131,7 +131,9 @@ def load_derived_tags(template_path, lines):
     ent = d.get(os.path.basename(template_path)[:-4])
     if not ent or ent.get('template_sha256') != template_sha(lines):
         return {}
-    return ent.get('tags', {})
+    out = dict(ent.get('tags', {}))
+    out['@dependants'] = ent.get('dependants', {})
+    return out
 
 
 def read_template(path, seen=None):
@@ -357,6 +359,7 @@ R4_RULES = [
     ('R4-pair-with-clone', r'(?P<e>\b\w+)\s*\.\s*iter\(\)\s*\.\s*cloned\(\)\s*\.\s*map\(\s*\|x\|\s*\(x,\s*(?P<s>\w+)\.clone\(\)\)\s*\)\s*\.\s*collect\(\)', r'vx_pair_with_clone(&\g<e>, &\g<s>)', None),
     ('R4-retain-round-gt', r'(?P<e>\b\w+)\s*\.\s*retain\(\s*\|_,\s*\(r,\s*_\)\|\s*r\s*>\s*&mut\s+(?P<r>\w+)\s*\)', r'vx_retain_round_gt(&mut \g<e>, \g<r>)', None),
     ('R4-now-millis', r'SystemTime\s*::\s*now\(\)\s*\.\s*duration_since\(\s*UNIX_EPOCH\s*\)\s*\.\s*expect\(\s*"[^"]*"\s*\)\s*\.\s*as_millis\(\)', r'vx_now_millis()', None),
+    ('R4-shuffle', r'(?P<e>\b\w+)\s*\.\s*shuffle\(\s*&mut\s+(?P<r>[\w\.]+)\s*\)', r'vx_shuffle(&mut \g<e>, &mut \g<r>)', None),
     ('R4-map-const', r'\.\s*map\s*\(\s*\|\s*_\s*\|\s*(?P<v>Some\s*\(\s*\w+\s*\)|\w+)\s*\)', r'.vx_map_const(\g<v>)', None),
     ('R11-eta', r'\.\s*map_err\s*\(\s*(?P<c>[A-Z]\w*::[A-Z]\w*)\s*\)', r'.map_err(|e| \g<c>(e))', None),
     ('R4-map-unwrap', r'(?P<e>\b\w+)\s*\.\s*map\s*\(\s*\|\s*x\s*\|\s*x\s*\.\s*unwrap\s*\(\s*\)\s*\)', r'vx_map_unwrap(\g<e>)', None),
@@ -534,6 +537,10 @@ class FnEmitter:
 
         # --- R6: let x = 'l: loop { .. break 'l E; .. };
         loops = find_loops(sub)
+        # loops for which the template has no clause at all: nothing is known about them beyond the verifier's defaults, so a
+        # proof failure in this function says "incomplete proof", not "violated" (a loop moved here from another function)
+        with_clause = set(c_.loop for c_ in spec.clauses if c_.loop is not None)
+        self.bare_loops = [n_ + 1 for n_ in range(len(loops)) if (n_ + 1) not in with_clause]
         for (k, o, c, label) in loops:
             k += base
             o += base
@@ -1090,6 +1097,7 @@ class FnEmitter:
             'orig': orig,
             'probe_ids': list(self.probe_ids),
             'lost_hints': list(self.lost_hints),
+            'bare_loops': list(getattr(self, 'bare_loops', [])),
         }
         return lines, rec
 
@@ -1219,6 +1227,14 @@ class Generator:
                                     while tk[z].text != '{':
                                         z += 1
                                     skip.update(range(z + 1, match_close(tk, z)))
+                        lifted_loops = [sg[1].lift[0] for sg in segs if sg[0] == 'fn' and sg[1].mode == 'block' and sg[1].lift[2] == 'loop'
+                                        and sg[1].file == rel and sg[1].target == (ty, tr, name)]
+                        if lifted_loops:
+                            loops_ = find_loops(sf.toks[it.body_open:it.body_close + 1])
+                            for n_l in lifted_loops:
+                                if n_l <= len(loops_):
+                                    (k_l, o_l, c_l, label_l) = loops_[n_l - 1]
+                                    skip.update(range(it.body_open + k_l, it.body_open + c_l + 1))
                         txt = ' '.join(t_.text for k_, t_ in enumerate(sf.toks[it.fn_kw:it.body_close + 1], it.fn_kw) if k_ not in skip)
                         ent['sha256'] = hashlib.sha256(txt.encode()).hexdigest()
                 except (GenError, LexError) as e:
@@ -1372,7 +1388,8 @@ class Generator:
         explicit_tagged = set(c.cid for spec in specs for c in spec.clauses if c.tags)
         return {'text': text, 'records': records, 'clause_at': clause_at, 'fn_ranges': fn_ranges,
                 'errors': errors, 'tags_of': tags_of, 'specs': specs, 'explicit_tagged': explicit_tagged, 'assumed': assumed,
-                'derived': derived}
+                'derived': {k_: v_ for k_, v_ in derived.items() if k_ != '@dependants'},
+                'dependants': derived.get('@dependants')}
 
     @staticmethod
     def quarantined(flines):
